@@ -37,10 +37,14 @@ class Chooser:
     def __init__(self, prefix):
         self.prefix = prefix
         self.trace = []  # (kind, n, chosen)
+        self.steps = None
 
     def choose(self, kind, n):
         if n <= 1:
             return 0
+        if self.steps is not None and W.runner is not None and W.phase == "run" \
+                and W.runner.simulator.markets[0].get_time() not in self.steps:
+            return 0  # outside the scenario's choice window: the default, and not a choice point
         i = len(self.trace)
         c = self.prefix[i] if i < len(self.prefix) else 0
         if not (0 <= c < n):
@@ -53,6 +57,7 @@ class RWorld:
     def __init__(self, scn, prefix):
         self.scn = scn
         self.ch = Chooser(list(prefix))
+        self.ch.steps = scn.meta.get("choice_steps")
         self.ev = []
         self.exc = None
         self.exc_tb = None
@@ -114,9 +119,10 @@ class ProbeMixin:
         o = k.get("order", a[0] if a else None)
         returned = getattr(o, "_vf_returned", None)
         pre = (o.is_buy, o.kind, o.price, o.volume, o.ttl, o.placed_at, o.order_id)
+        info = dict(running=self._is_running, mp=self.get_market_price(), mp0=self.get_market_price(0))
         l = super()._add_order(*a, **k)
         post = (o.order_id, o.market_id, o.placed_at, o.agent_id, o.is_buy, o.kind, o.volume, o.price, o.ttl)
-        W.rec("acc", self.market_id, l, o, pre, returned, post, self._is_running)
+        W.rec("acc", self.market_id, l, o, pre, returned, post, info)
         return l
 
     def _cancel_order(self, *a, **k):
@@ -124,13 +130,14 @@ class ProbeMixin:
         l = super()._cancel_order(*a, **k)
         o = c.order
         post = (o.order_id, o.market_id, c.placed_at, o.placed_at, o.agent_id, o.is_buy, o.kind, o.volume, o.price, o.ttl)
-        W.rec("can", self.market_id, l, o, post, self._is_running)
+        W.rec("can", self.market_id, l, o, post, dict(running=self._is_running))
         return l
 
     def _execution(self):
         running = self._is_running
         ls = super()._execution()
-        W.rec("round", self.market_id, ls, running)
+        W.rec("round", self.market_id, ls, running,
+              dict(mp=self.get_market_price(), mp0=self.get_market_price(0), running_after=self._is_running, t=self.time))
         return ls
 
     def _update_time(self, *a, **k):
@@ -559,6 +566,9 @@ def explore(scns, acceptors, bound, on_exc=None, seed=0, split=1):
     tot = dict(n=0, points=0, digests=set(), viol=[], wit=Counter(), aborted=0, per_scenario={}, maxlen=0)
     tasks = []
     for name, scn in scns.items():
+        if split == 0:
+            tasks.append((name, (), 0))  # the whole tree of this scenario in one task
+            continue
         w = run_once(scn, [])
         tr = w.ch.trace
         # the default execution itself
@@ -569,9 +579,7 @@ def explore(scns, acceptors, bound, on_exc=None, seed=0, split=1):
                 for alt in range(1, tr[i][1]):
                     tasks.append((name, tuple(base + [alt]), 1))
     tasks = common.rotate(tasks, seed)
-    results = common.pool_map(_subtree, tasks)
-    for (name, prefix, dev), st in zip(tasks, results) if False else []:
-        pass
+    results = common.pool_map(_subtree, tasks, chunksize=(8 if split == 0 and len(tasks) > 2000 else 1))
     # pool_map is unordered: aggregate without per-task attribution, then per-scenario from violations
     for st in results:
         tot["n"] += st["n"]
